@@ -203,6 +203,8 @@ def csv_case(draw):
                     t = dict(t, date=draw(st.sampled_from([m.get('d') or m['lo'], m.get('hi') or m['d']])))
             ws = draw(st.lists(lang.word, min_size=1, max_size=3))
             lits = [w for w in lang.WORDS if w.isalnum() and w in r['pattern']]
+            if r['pattern'] in csvrules.LOOKALIKE_ATOMS:
+                lits = [r['pattern']]
             t = dict(t, description=lang.flip_case(' '.join(ws + lits), draw(st.integers(0, 65535))))
         txns.append(t)
     return {'kind': 'csv', 'rules': rules, 'txns': txns}
